@@ -14,7 +14,9 @@
 //! `force <p>` (`force_close`; the observation carries `connections` right after the call) and the
 //! methods that delegate to the `TransportManagerHandle` — `lpid` (`local_peer_id`), `addrs`
 //! (`listen_addresses`, `public_addresses`), `known <p> <kind> <port>` (`add_known_address` with one
-//! address of kind `tcp|tcpp|wrong|udp|unspec`), `dial <p>`, `dial_addr <p> <kind> <port>`,
+//! address of kind `tcp|tcpp|wrong|udp|unspec` or, for `known` only, `two|twow|relay|circ`: two `/p2p`
+//! components ending with the peer / with somebody else, a relay address to the peer, an address
+//! ending in `/p2p-circuit`), `dial <p>`, `dial_addr <p> <kind> <port>`,
 //! `unregister` (`unregister_protocol`), `mgr_recv` (what the manager would receive).
 
 use super::*;
@@ -173,6 +175,10 @@ pub(crate) fn make_service_with_peers(
     (service, sender, cmd_rx, known)
 }
 
+/// Address kinds offered to `add_known_address` only (`known`): shapes whose `/p2p` components do not
+/// simply name the peer (C10: attribution of remembered addresses).
+const KNOWN_ONLY_KINDS: [&str; 4] = ["two", "twow", "relay", "circ"];
+
 /// One address of the given kind for `add_known_address` / `dial_address`.
 fn address_of(kind: &str, p: u64, port: u16) -> Option<Multiaddr> {
     use multiaddr::Protocol;
@@ -189,6 +195,29 @@ fn address_of(kind: &str, p: u64, port: u16) -> Option<Multiaddr> {
             .with(ip)
             .with(Protocol::Tcp(port))
             .with(Protocol::P2p(peer(p + 100).into())),
+        // two `/p2p` components, the last one names the peer / somebody else: not a TCP address shape
+        "two" => Multiaddr::empty()
+            .with(ip)
+            .with(Protocol::Tcp(port))
+            .with(Protocol::P2p(peer(p + 100).into()))
+            .with(Protocol::P2p(peer(p).into())),
+        "twow" => Multiaddr::empty()
+            .with(ip)
+            .with(Protocol::Tcp(port))
+            .with(Protocol::P2p(peer(p).into()))
+            .with(Protocol::P2p(peer(p + 100).into())),
+        // relay shapes: through somebody else to the peer / ending in `/p2p-circuit` (no trailing id)
+        "relay" => Multiaddr::empty()
+            .with(ip)
+            .with(Protocol::Tcp(port))
+            .with(Protocol::P2p(peer(p + 100).into()))
+            .with(Protocol::P2pCircuit)
+            .with(Protocol::P2p(peer(p).into())),
+        "circ" => Multiaddr::empty()
+            .with(ip)
+            .with(Protocol::Tcp(port))
+            .with(Protocol::P2p(peer(p + 100).into()))
+            .with(Protocol::P2pCircuit),
         // transport that is not enabled
         "udp" => Multiaddr::empty().with(ip).with(Protocol::Udp(port)),
         "unspec" => Multiaddr::empty()
@@ -209,7 +238,10 @@ fn show_address(address: &Multiaddr, p: u64) -> String {
         })
         .unwrap_or(0);
     let own = PeerId::try_from_multiaddr(address) == Some(peer(p));
-    format!("{}{}", port, if own { "" } else { "!" })
+    // `~`: not of the plain shape `/<host>/<tcp|udp>/p2p/<id>`
+    let plain = address.iter().count() == 3
+        && std::matches!(address.iter().last(), Some(Protocol::P2p(_)));
+    format!("{}{}{}", port, if own { "" } else { "!" }, if plain { "" } else { "~" })
 }
 
 fn show_dial_error(error: &ImmediateDialError) -> &'static str {
@@ -516,6 +548,9 @@ impl VerifBox for ServiceBox {
             }
             ["dial_addr", p, kind, port] => {
                 let (Some(p), Some(port)) = (n(p), n(port)) else { return "bad-op".into() };
+                if KNOWN_ONLY_KINDS.contains(kind) {
+                    return "bad-op".into();
+                }
                 let Some(address) = address_of(kind, p as u64, port as u16) else {
                     return "bad-op".into();
                 };
